@@ -75,7 +75,7 @@ Proof.
     + refine (conj eq_refl (conj eq_refl (conj _ (conj _ (conj _ _))))); [|apply all_ok_snoc; auto| |reflexivity].
       * eapply (step_wf_local g st c); [eapply St_chk_ok; eauto|exact W].
       * apply cat_register_Some in R as (Hnode & _). rewrite Hnode, Hn. apply reg_node_same.
-    + right. exists (ce_set_sync true e). cbn. rewrite lookup_insert. auto.
+    + right. exists (ce_set_sync true (ce_clear_defer e)). cbn. rewrite lookup_insert. auto.
 Qed.
 
 Lemma done_s_step g st c st' c' ev id : Step g st c st' c' ev -> done_s st id -> done_s st' id.
@@ -91,7 +91,7 @@ Proof.
   intros H Hd. destruct (l_chks st' !! id) as [e'|] eqn:L'; [|left; exact L'].
   destruct (step_chks_back _ _ _ _ _ _ _ _ H L') as (e1 & L1 & S1). right. exists e'. split; [exact L'|].
   destruct Hd as [N|(e & L & D & S)]; [congruence|]. assert (e1 = e) by congruence. subst e1.
-  destruct S1 as [->| ->]; cbn; auto.
+  rewrite (cle_sync _ _ S1 S). auto.
 Qed.
 
 Definition st_of (a : acc) : lstate := fst (fst (fst (fst a))).
@@ -205,7 +205,8 @@ Record converged (g : cfg) (st : lstate) (c : cat) (st' : lstate) (c' : cat) : P
                   (id = g_consul g /\ l_svcs st !! id = None /\ c_svcs c' !! id = c_svcs c !! id) \/
                   c_svcs c' !! id = match l_svcs st' !! id with Some e => se_def e | None => None end;
   (* the catalog's checks are exactly the local ones, up to the fields it copies from its service *)
-  cv_cat_chks : forall id e d, l_chks st' !! id = Some e -> ce_def e = Some d -> holds_chk c' id d;
+  (* ... and, for a check whose deferred-output timer is pending, up to its Output *)
+  cv_cat_chks : forall id e d, l_chks st' !! id = Some e -> ce_def e = Some d -> holds_ce c' id e d;
   cv_cat_nochk : forall id, l_chks st' !! id = None -> id <> g_serf g -> c_chks c' !! id = None;
   cv_node : c_node c' = Some (g_ni g)
 }.
@@ -356,7 +357,7 @@ Theorem retry_marked g st c :
   (forall id e d, l_svcs (uss_apply g st c) !! id = Some e -> se_del e = false -> se_def e = Some d ->
      ~ holds_svc c id d -> se_sync e = false) /\
   (forall id e d, l_chks (uss_apply g st c) !! id = Some e -> ce_del e = false -> ce_def e = Some d ->
-     ~ holds_chk c id d -> ce_sync e = false).
+     ~ holds_ce c id e d -> ce_sync e = false).
 Proof.
   split; intros id e d L D F N.
   - destruct (se_sync e) eqn:S; [|reflexivity]. exfalso. apply N. eapply uss_held_svc; eauto.
@@ -549,7 +550,7 @@ Theorem retry_full g os oc st c fs st' c' fs' log err :
   ((forall id e d, l_svcs (uss_apply g st c) !! id = Some e -> se_del e = false -> se_def e = Some d ->
       ~ holds_svc c id d -> In id os -> pushed_svc log id) /\
    (forall id e d, l_chks (uss_apply g st c) !! id = Some e -> ce_del e = false -> ce_def e = Some d ->
-      ~ holds_chk c id d -> In id oc -> pushed_chk log id)).
+      ~ holds_ce c id e d -> In id oc -> pushed_chk log id)).
 Proof.
   intros E. apply sync_full_cases in E as [(-> & -> & -> & _)|(fs1 & la & lb & _ & Hla & E & ->)]; [auto|].
   destruct (retry_changes _ _ _ _ _ _ _ _ _ _ _ E) as [Hs Hc].
